@@ -2099,6 +2099,8 @@ read_dns(int fd, struct dnsfd *dns_fds, int tun_fd, struct query *q)
 	socklen_t addrlen;
 	char packet[64*1024];
 	int r;
+	int decoded;
+	int rootname = 0;
 #ifndef WINDOWS32
 	char control[CMSG_SPACE(sizeof (struct in6_pktinfo))];
 	struct msghdr msg;
@@ -2137,8 +2139,19 @@ read_dns(int fd, struct dnsfd *dns_fds, int tun_fd, struct query *q)
 		if (raw_decode(packet, r, q, fd, dns_fds, tun_fd)) {
 			return 0;
 		}
-		if (dns_decode(NULL, 0, q, QR_QUERY, packet, r) <= 0) {
+		decoded = dns_decode(NULL, 0, q, QR_QUERY, packet, r);
+		if (decoded < 0) {
 			return 0;
+		}
+		if (decoded == 0) {
+			/* dns_decode() returns the length of the name, which
+			   is 0 both on failure and for a well-formed question
+			   about the root ("."): a single 0 octet after the
+			   12-octet header, followed by type and class */
+			if (r < 12 + 1 + 4 || packet[12] != 0) {
+				return 0;
+			}
+			rootname = 1;
 		}
 
 #ifndef WINDOWS32
@@ -2170,7 +2183,8 @@ read_dns(int fd, struct dnsfd *dns_fds, int tun_fd, struct query *q)
 		}
 #endif
 
-		return strlen(q->name);
+		/* callers only test for > 0 */
+		return rootname ? 1 : strlen(q->name);
 	} else if (r < 0) {
 		/* Error */
 		warn("read dns");
